@@ -211,6 +211,7 @@ func call(o *outcome, l int, f func() (int, error)) {
 	var m0, m1 runtime.MemStats
 	elemDecodes = 0
 	objDecodes = 0
+	validatorCalls = 0
 	iterLimit = 8*l + 4096
 	runtime.ReadMemStats(&m0)
 	func() {
